@@ -883,6 +883,10 @@ def run(ctx: Ctx, rep: Report, tier: str) -> None:
     operand_range(ctx, sub8)
     rep.absorb(sub8, "R01.9")
     classification_guards(ctx, rep)
+    # R01.13 the operand list that is stored is the list that was validated (C08 R08.1b)
+    from .c08 import validated_is_returned
+
+    validated_is_returned(ctx, rep, rid="R01.13")
     setter_completeness(ctx, rep)
     orders = r01_1(ctx, rep)
     r01_2(ctx, rep, orders)
